@@ -137,4 +137,31 @@ theorem C09_projection_bounded {F : Type} [Field F] [LinearOrder F] [IsStrictOrd
         = (u.x * vx + u.y * vy) * (u.x * u.x + u.y * u.y - 1) := by ring
     rw [this, h1']; ring
 
+theorem sphericalToCartesian_norm_sq {F : Type} [Field F] [LinearOrder F] [IsStrictOrderedRing F] (T : Transc F)
+    (hsc : ∀ a : F, T.sin a * T.sin a + T.cos a * T.cos a = 1) (r lon lat : F) :
+    let q := @sphericalToCartesian F (fieldScalar T) ⟨r, lon, lat⟩
+    q.x * q.x + q.y * q.y + q.z * q.z = r * r := by
+  intro q
+  have key : ∀ s c sl cl : F, s * s + c * c = 1 → sl * sl + cl * cl = 1 →
+      (r * s * cl) * (r * s * cl) + (r * s * sl) * (r * s * sl) + (r * c) * (r * c) = r * r := by
+    intro s c sl cl h1 h2
+    linear_combination (r * r * s * s) * h2 + (r * r) * h1
+  exact key _ _ _ _ (hsc _) (hsc _)
+
+/-- **C09** spherical sections: the lifted point lies at radius `√(x²+z²)` — its squared norm is `x²+z²` — whatever the
+cross-section points are (laws used: `sin²+cos² = 1`, `sqrt y · sqrt y = y` for `y ≥ 0`) -/
+theorem C09_lift_radius_spherical {F : Type} [Field F] [LinearOrder F] [IsStrictOrderedRing F] (T : Transc F)
+    (hsc : ∀ a : F, T.sin a * T.sin a + T.cos a * T.cos a = 1)
+    (hsqrt : ∀ y : F, 0 ≤ y → T.sqrt y * T.sqrt y = y)
+    (w : World F) (hs : w.ctx.coord.spherical = true) (c0 c1 pt : P2 F) :
+    let p := @World.lift2 F (fieldScalar T) w c0 c1 pt
+    p.x * p.x + p.y * p.y + p.z * p.z = pt.x * pt.x + pt.y * pt.y := by
+  intro p
+  have hl := (@C09_lift F (fieldScalar T) w c0 c1 pt).2 hs
+  have hp : p = _ := hl
+  rw [hp]
+  have hnn : 0 ≤ pt.x * pt.x + pt.y * pt.y := add_nonneg (mul_self_nonneg _) (mul_self_nonneg _)
+  have hr : T.sqrt (pt.x * pt.x + pt.y * pt.y) * T.sqrt (pt.x * pt.x + pt.y * pt.y) = _ := hsqrt _ hnn
+  exact (sphericalToCartesian_norm_sq T hsc _ _ _).trans hr
+
 end Gwb
